@@ -10,7 +10,7 @@ RULE = ("westfall_young driven by a scripted Randomizer and table-lookup test fu
         "in_place; every row of tables with <= 8 rows rotated into the observed position (exact FWER); "
         "non-trivial = more than one hypothesis or a tie with the observed statistic; distinct by table and options")
 LEVEL = ("theorems wy_minp_raw_spec, wy_minp_adj_ge_raw, wy_minp_range, wy_minp_order, wy_minp_min_is_rank, "
-         "wy_minp_fwer_exact (+ maxT analogues) for every table; Relabel.wy_minp_relabel / wy_maxt_relabel (relabelling equivariance for distinct raw p-values / statistics, every relabelling); model validated against npc.westfall_young")
+         "wy_minp_fwer_exact, WYMaxRank.wy_maxt_min_is_rank / wy_maxt_fwer_exact / wy_maxtl_min_is_rank (exact FWER of maxT, also for mixed lists) (+ maxT analogues) for every table; Relabel.wy_minp_relabel / wy_maxt_relabel (relabelling equivariance for distinct raw p-values / statistics, every relabelling); model validated against npc.westfall_young")
 ASSUMPTIONS = ["maxT with a per-test list mixing 'greater' and 'two-sided': every hypothesis enters on its own scale (Model wyMaxTL; the "
                "code did otherwise until repair D17, commit 82fd866)",
                "+-inf statistics are passed to the exact oracle and the model as +-10^6 (an order embedding: only comparisons, negation and absolute values are taken); NaN statistics are outside the domain"]
@@ -104,7 +104,11 @@ def run(ctx):
         kinds = [ctx.rng.choice(["np", "float", "int", "f32", "i64"]) for _ in range(m)]
         ip = ctx.rng.random() < 0.3
         e, tests, st = scripted_experiment(tv, ts, kinds)
+        tests_before = list(tests); alts_before = list(alts) if isinstance(alts, list) else alts
         r = guarded(npc.westfall_young, e, tests, method=method, alternatives=alts, reps=reps, in_place=ip)
+        if len(tests) != len(tests_before) or any(a_ is not b_ for a_, b_ in zip(tests, tests_before)) or (isinstance(alts, list) and alts != alts_before):
+            ctx.violation("input-modified", {"call": "westfall_young", "method": method, "alternatives": alts_before,
+                                             "issue": "the caller's list of test functions (or of alternatives) was modified by the call"}, site="westfall_young")
         det = {"call": "westfall_young", "method": method, "alternatives": alts, "reps": reps, "observed": ts, "table": tv,
                "return_kinds": kinds, "in_place": ip}
         tie = any(abs(r_[c]) == abs(ts[c]) or r_[c] == ts[c] for r_ in tv for c in range(m))
